@@ -15,7 +15,7 @@ pub static PROP: Prop = Prop {
     rule: "cases = (input, list incl. empty / single / fitted lists, one of the 64 mode subsets, macro flag, FNC1 flag, ECI none or 0..=999999) run through DataMatrixBuilder::encode/encode_eci, encode_str (input read as Latin-1 code points), data::encode_data and data::encodation_plan, in a plain release build and in a build with overflow checks + debug assertions; oracle = no unwind, SymbolListEmpty iff the list is empty, every other refusal TooMuchOrIllegalData; non-trivial = list not default OR mode set not all OR macro-envelope stratum OR length > 1555; distinct by (input, configuration)",
     assumptions: &["ECI numbers above 999999 are outside the documented domain and are not generated", "a hang is detected by the 60 s watchdog and confirmed by an isolated re-run"],
     extra: super::no_extra,
-    fuzz_runs: 50000,
+    fuzz_runs: 200000,
 };
 
 fn classify(what: &str, c: &EncCase, r: Result<Result<(), DataEncodingError>, String>) -> Result<&'static str, String> {
